@@ -129,20 +129,25 @@ def check(run):
     # SBRG (pyclifford only)
     sb = repo.func(K.PY_C, 'SBRG')
     effect.check_pure(run, eff, sb)
-    first = sb.node.body[1] if isinstance(sb.node.body[0], ast.Expr) else sb.node.body[0]
-    run.check(norm(first).replace(' ', '') == 'htmp=hmdl.copy()', 'R4.copy', sb, first, 'SBRG works on a copy of the model Hamiltonian')
+    from ..names import name_assigned_from
+    HM = sb.posparams[0]
+    HT = name_assigned_from(sb, lambda v: norm(v).replace(' ', '') == '%s.copy()' % HM)
+    CI = name_assigned_from(sb, lambda v: isinstance(v, ast.Call) and norm(v.func) == 'diagonalize')
+    run.check(HT is not None, 'R4.copy', sb, '%s.copy()' % HM, 'SBRG works on a copy of the model Hamiltonian')
+    HT = HT or 'htmp'
+    CI = CI or 'circ_i0'
     loop = [st for st, _ in walk(sb.node) if isinstance(st, ast.For)]
     run.check(len(loop) == 1 and norm(loop[0].iter).replace(' ', '') == 'range(N)', 'R10.sbrg', sb, 'for i0 in range(N)', 'every qubit is a pivot once, in ascending order')
     if loop:
         i0 = loop[0].target.id
         body = loop[0].body
         txt = [norm(s).replace(' ', '') for s in body]
-        want = ['circ_i0=diagonalize(htmp[leading],%s,causal=True)' % i0, 'circ.compose(circ_i0)', 'circ_i0.forward(htmp)']
+        want = ['%s=diagonalize(%s[leading],%s,causal=True)' % (CI, HT, i0), 'circ.compose(%s)' % CI, '%s.forward(%s)' % (CI, HT)]
         pos = [txt.index(w) if w in txt else -1 for w in want]
         run.check(all(p >= 0 for p in pos) and pos == sorted(pos), 'R10.sbrg', sb, 'diagonalize / compose / forward',
                   'the circuit that diagonalises the leading term causally is both appended to the total circuit and applied to the working Hamiltonian (found order %s)' % pos)
         lead = [s for s in body if isinstance(s, ast.Assign) and norm(s.targets[0]) == 'leading']
-        run.check(len(lead) == 1 and norm(lead[0].value).replace(' ', '') == 'numpy.argmax(numpy.abs(htmp.cs))', 'R10.sbrg', sb, 'leading', 'the leading term has the largest |coefficient|')
+        run.check(len(lead) == 1 and norm(lead[0].value).replace(' ', '') == 'numpy.argmax(numpy.abs(%s.cs))' % HT, 'R10.sbrg', sb, 'leading', 'the leading term has the largest |coefficient|')
         for s in body:
             if isinstance(s, ast.Assign) and norm(s.targets[0]) == 'mask_commute':
                 cmpn = s.value
@@ -150,11 +155,11 @@ def check(run):
                     and norm(cmpn.comparators[0]) == '0'
                 run.check(ok, 'R13.sbrg', sb, s, 'terms commuting with Z on the pivot have x slot 2*i0 equal to 0')
             if isinstance(s, ast.Assign) and norm(s.targets[0]) == 'mask_trivial':
-                sub = [n for n in ast.walk(s.value) if isinstance(n, ast.Subscript) and norm(n.value) == 'htmp.gs']
+                sub = [n for n in ast.walk(s.value) if isinstance(n, ast.Subscript) and norm(n.value) == HT + '.gs']
                 ok = len(sub) == 1 and isinstance(sub[0].slice.elts[1], ast.Slice) and affine_in(sub[0].slice.elts[1].lower, i0) == (2, 2) \
                     and sub[0].slice.elts[1].upper is None
                 run.check(ok, 'R13.sbrg', sb, s, 'a term is finished when it is trivial on all slots after qubit i0: columns [2*i0+2:]')
-        run.check('heff+=htmp[mask_trivial]' in txt and 'htmp=htmp[~mask_trivial]' in txt, 'R13.sbrg', sb, 'heff / htmp split', 'finished terms move to the effective Hamiltonian, the rest stays')
+        run.check('heff+=%s[mask_trivial]' % HT in txt and '%s=%s[~mask_trivial]' % (HT, HT) in txt, 'R13.sbrg', sb, 'heff / htmp split', 'finished terms move to the effective Hamiltonian, the rest stays')
     rets = [norm(st.value).replace(' ', '') for st, _ in walk(sb.node) if isinstance(st, ast.Return)]
     run.check(rets == ['(heff,circ)'], 'R10.sbrg', sb, 'return heff, circ', 'SBRG returns the effective Hamiltonian and the circuit')
     entries = [repo.func(K.PY_C, 'diagonalize'), repo.func(K.PY_C, 'SBRG'), repo.func(K.TC_C, 'diagonalize'),
